@@ -275,6 +275,64 @@ def run_sizes(params, known):
     return dict(name=params['name'], kind='enum', evaluations=count, nontrivial_keys=sorted(keys), violations=violations, known=[], samples=[])
 
 
+def run_secured_fragments(params, known):
+    """The bundle was secured at its source (an integrity block over the payload) and cut by a node on
+    the way: the first fragment carries the integrity block, whose MAC covers the WHOLE payload.  The
+    three fragments arrive in every order (also with a repeat) at a receiver holding the key: the
+    bundle is put together first and verified then - delivered once, intact; with one octet of one
+    fragment altered nothing is delivered."""
+    import itertools
+    from ..oracle import cose_aad as A
+    from .c03 import KEY, KID, sym_key
+    violations = []
+    kinds = set()
+    count = 0
+    keys = set()
+
+    def viol(kind, detail, case):
+        if kind in kinds:
+            return
+        kinds.add(kind)
+        v = Violation(PROP, 'reassembly', kind, dict(), '%r: %s' % (case, detail)).as_dict()
+        v['case'] = case
+        violations.append(v)
+    payload = bytes((i * 9 + 4) & 0xFF for i in range(60))
+    whole = dict(primary=dict(flags=0, crc_type=1, dest='dtn://node/app', src='dtn://secsrc/app', report_to='dtn:none', ts=(T, 4), lifetime=3600000),
+                 blocks=[dict(type=1, num=1, flags=0, crc_type=1, data=payload)])
+    secured = A.add_bib(whole, [1], KEY, KID, 'dtn://secsrc/', scope={0: 1, -1: 1}, num=2)
+    cuts = [(0, 20), (20, 45), (45, 60)]
+
+    def fragment(lo, hi, alter=False):
+        pri = dict(secured['primary'], flags=B.FLAG_IS_FRAGMENT, frag_offset=lo, total_adu=len(payload))
+        data = payload[lo:hi]
+        if alter:
+            data = data[:-1] + bytes([data[-1] ^ 1])
+        blocks = [dict(b) for b in secured['blocks'] if b['type'] != 1] if lo == 0 else []
+        blocks.append(dict(type=1, num=1, flags=0, crc_type=1, data=data))
+        return B.encode(dict(primary=pri, blocks=blocks))
+    for altered in (None, 0, 1, 2):
+        for order in itertools.permutations(range(3)):
+            for repeat in (None, order[0]):
+                count += 1
+                case = dict(order=list(order), altered_fragment=altered, repeated=repeat)
+                world = BpWorld(dict(node_id=NODE, rx_routes=[('^dtn://node/.*', 'deliver')], tx_routes=[]))
+                world.cose().sym_key_store[KID] = sym_key(KEY, ['MacCreateOp', 'MacVerifyOp'], 'HMAC256')
+                seq = list(order) + ([repeat] if repeat is not None else [])
+                for k in seq:
+                    world.receive(fragment(cuts[k][0], cuts[k][1], alter=(altered == k)))
+                    world.quiesce()
+                keys.add('%r/%s/%s' % (order, altered, repeat))
+                got = [bytes.fromhex(b[2]) for d in world.probe.seen for b in d['blocks'] if b[0] == 1]
+                if world.escaped:
+                    viol('exception-escaped-idle-callback', '%s: %s' % (world.escaped[-1][0], world.escaped[-1][2]), case)
+                elif altered is None and got != [payload]:
+                    viol('complete-bundle-not-delivered' if not got else 'reassembled-payload-differs',
+                         'delivered %d bundles (errors %r)' % (len(got), world.api_errors[:1]), case)
+                elif altered is not None and got:
+                    viol('altered-secured-bundle-delivered', 'fragment %d altered, %d bundles delivered' % (altered, len(got)), case)
+    return dict(name=params['name'], kind='enum', evaluations=count, nontrivial_keys=sorted(keys), violations=violations, known=[], samples=[])
+
+
 def run_long_gap(params, known):
     '''Bundle X arrives in fragments, then N other bundles (each delivered once), then the fragments
     of X and the unfragmented X again; or the N others arrive between the two halves of X.  X is
@@ -363,6 +421,7 @@ def scenarios(tier):
     out.append(dict(name='two-agents', kind='enum', runner='run_two_agents', params=dict(name='two-agents'), weight=3))
     for part in range(4):
         out.append(dict(name='sizes-%d/4' % (part + 1), kind='enum', runner='run_sizes', params=dict(name='sizes-%d/4' % (part + 1), part=part, parts=4), weight=6))
+    out.append(dict(name='secured-fragments', kind='enum', runner='run_secured_fragments', params=dict(name='secured-fragments'), weight=6))
     out.append(dict(name='long-gap', kind='enum', runner='run_long_gap', params=dict(name='long-gap'), weight=6))
     # a fragmented administrative record, alone and interleaved with fragments of X
     adm = [11, 12, 13, 3, 5]
@@ -381,6 +440,7 @@ ASSUMPTIONS = [
     'overlapping fragments of one bundle carry consistent octets',
     'a fragmented bundle whose first-fragment extension block is a hop-count block with zero-length data under CRC-16',
     'a bundle for another node (forwarded) interleaved with the fragments of X under overlapping receive routes; a fragmented bundle whose first-fragment extension block has reserved block-flag bits set under CRC-16',
+    'a bundle secured at its source (integrity block over the whole payload) cut in three on the way: all orders, a repeat, one fragment altered',
     'sizes: application data units of 65535, 65536, 65537, 66000 and 131073 octets in two or three fragments cut at and next to 64 KiB, every arrival order',
     'long gaps: 0, 1, 255, 256, 257, 300 or 1100 other bundles between the completion of X and repeats of its fragments, or between its two halves',
 ]
